@@ -314,7 +314,7 @@ def _shard_worker(args):
         stats = ShardStats()
         cov = _install_cov(os.environ["VERIF_COV"]) if os.environ.get("VERIF_COV") else None
         # exhaustive slices: every shard enumerates, runs its residue class
-        for name, factory in getattr(mod, "exhaustive", lambda t: [])(tier):
+        for name, factory in ([] if os.environ.get("VERIF_OPT_CHILD") else getattr(mod, "exhaustive", lambda t: [])(tier)):
             for i, case in enumerate(factory()):
                 if i % nshards != shard:
                     continue
@@ -483,6 +483,11 @@ def run_check(prop_id, tier, seed, replay=None):
     # -- replay mode -----------------------------------------------------------------------
     if replay is not None:
         rp = read_replay(replay)
+        if rp.get("optimize") and sys.flags.optimize == 0:
+            import subprocess
+            r = subprocess.run([sys.executable, "-O", "-B", "-m", "vlib.main", prop_id, "--tier", tier, "--replay", replay],
+                               cwd=VERIF_DIR, env=dict(os.environ, PYTHONOPTIMIZE="1"))
+            return r.returncode
         ctx, failure = run_one(mod, rp["case"], tier, guards=(), careful=True)
         if failure is None:
             print(f"REPLAY property={prop_id} file={replay}: passes (no oracle fails)")
@@ -553,6 +558,13 @@ def run_check(prop_id, tier, seed, replay=None):
     if extra is not None:
         extra_info = extra(tier, seed, guards, total, violations) or {}
 
+    # -- the same search once more with assertions stripped (python -O) ----------------------------
+    # A share of the random cases is repeated in a child interpreter started with -O: the library must behave the same when its
+    # assert statements are compiled away (an assert with a side effect is the classic way to break that).  Only when the normal
+    # run found nothing, never recursively, not for the exhaustive slices.
+    if not total.failures and not violations and not os.environ.get("VERIF_OPT_CHILD") and n_cases and not os.environ.get("VERIF_NO_OPT"):
+        extra_info = dict(extra_info, **_optimized_child(prop_id, tier, seed, max(nshards, n_cases // 8), violations))
+
     # -- shrink & report -------------------------------------------------------------------
     for oracle in sorted(total.failures):
         case, msg = total.failures[oracle]
@@ -576,6 +588,38 @@ def run_check(prop_id, tier, seed, replay=None):
             print(f"VIOLATION property={prop_id} replay={rel}")
         return 1
     return 0
+
+
+def _optimized_child(prop_id, tier, seed, n_cases, violations):
+    import shutil
+    import subprocess
+
+    sub = os.path.join(OUT_DIR, "optimized-run")
+    shutil.rmtree(sub, ignore_errors=True)
+    env = dict(os.environ, VERIF_OPT_CHILD="1", VERIF_CASES=str(n_cases), VERIF_OUT=sub, VERIF_SEED=str(seed), PYTHONOPTIMIZE="1")
+    r = subprocess.run([sys.executable, "-O", "-B", "-m", "vlib.main", prop_id, "--tier", tier], cwd=VERIF_DIR, env=env,
+                       capture_output=True, text=True)
+    info = {"optimized_interpreter_cases": n_cases, "optimized_interpreter_exit": r.returncode}
+    if r.returncode == 1:
+        msgs = [ln.strip()[len("failing oracle "):] for ln in r.stdout.splitlines() if ln.strip().startswith("failing oracle ")]
+        reps = [ln.split("replay=", 1)[1].strip() for ln in r.stdout.splitlines() if ln.startswith("VIOLATION ")]
+        for i, rel in enumerate(reps):
+            src = os.path.join(sub, rel)
+            dst_rel = os.path.join("replays", os.path.basename(rel)[:-5] + "-optimized.json")
+            os.makedirs(os.path.join(OUT_DIR, "replays"), exist_ok=True)
+            try:
+                rp = json.load(open(src, encoding="utf-8"))
+                rp["optimize"] = True  # --replay re-runs it under python -O
+                json.dump(rp, open(os.path.join(OUT_DIR, dst_rel), "w", encoding="utf-8"), indent=1, sort_keys=True)
+            except Exception:  # noqa
+                dst_rel = rel
+            m = msgs[i] if i < len(msgs) else "failure under python -O"
+            oracle, _, text = m.partition(": ")
+            violations.append((oracle, dst_rel, "(only with assertions stripped, python -O) " + text))
+    elif r.returncode != 0:
+        raise HarnessError("optimized (-O) child run failed: " + (r.stderr or r.stdout)[-600:])
+    shutil.rmtree(sub, ignore_errors=True)
+    return info
 
 
 def write_evidence(mod, tier, seed, total, violations, known_lines, guards, regress_n, wall,
